@@ -48,3 +48,30 @@ Print Assumptions C13_zero_copy_atomic_exclusive_ownership.
    free list [3], id ring [1], thread 2 holds slot 0, thread 1 has slot 2 in transit *)
 Example C13Z_nonvacuous : zreach 4 ex_s /\ Conserve 4 ex_s.
 Proof. split; [exact ex_reachable|exact ex_Conserve]. Qed.
+
+(* ---- the same for the zero-copy FULL-SYNC Uni channel (Alloc/ZcConserveFS.v): custody is read off the full-sync ring's steps (an id is in
+   the ring from the publication step under the flag on, out of it from the consume step under the flag on; between those steps and the
+   return of the operation it is counted with the ring resp. with the thread) ---- *)
+From RM Require Import ZcSolo ZcConserveFS.
+Theorem C13_zero_copy_full_sync_slots_conserved :
+  forall N, 0 < N -> forall M k wr cevs, ConserveFS N (q _ (zcf_run N M k wr cevs)).
+Proof. exact zcf_slots_conserved. Qed.
+Print Assumptions C13_zero_copy_full_sync_slots_conserved.
+
+Theorem C16_zero_copy_full_sync_no_leak_exact_capacity :
+  forall N, 0 < N -> forall M k wr cevs, let s := q _ (zcf_run N M k wr cevs) in
+  (forall t, uthr _ s t = UIdle) ->
+  (ftail (ua _ s) - fhead (ua _ s)) + (ftail (ub _ s) - fhead (ub _ s)) = N
+  /\ all_idle (ua _ s) /\ all_idle (ub _ s) /\ Permutation (ids_upto N) (finring (ua _ s) ++ finring (ub _ s)).
+Proof. exact zcf_no_leak. Qed.
+Print Assumptions C16_zero_copy_full_sync_no_leak_exact_capacity.
+
+Theorem C13_zero_copy_full_sync_exclusive_ownership :
+  forall N, 0 < N -> forall M k wr cevs, let s := q _ (zcf_run N M k wr cevs) in
+  (forall t u id, uheld _ s t = Some id -> uheld _ s u = Some id -> t = u) /\
+  (forall t id, uheld _ s t = Some id ->
+     0 <= id < N /\ ~ In id (finring (ua _ s)) /\ ~ In id (finring (ub _ s)) /\ forall u, ~ In id (ftransl s u)) /\
+  (forall t id, In id (ftransl s t) ->
+     0 <= id < N /\ ~ In id (finring (ua _ s)) /\ ~ In id (finring (ub _ s)) /\ forall u, In id (ftransl s u) -> u = t).
+Proof. exact zcf_exclusive_ownership. Qed.
+Print Assumptions C13_zero_copy_full_sync_exclusive_ownership.
